@@ -570,4 +570,76 @@ theorem record_changes_only_by_owner (s : State) (hk : KeysOK s) (m : Msg) (hg :
   by_contra hn
   exact hne (deliver_not_accept hn)
 
+/-! ## Examples on a concrete state (non-vacuity) -/
+section Examples
+
+def alice : Addr := [1]
+def bob : Addr := [2]
+def carol : Addr := [3]
+def nodeA : Addr := [7]
+def nodeB : Addr := [8]
+def acc (a : Addr) : TextAddr := ⟨.acc, a, false⟩
+def prov (a : Addr) : TextAddr := ⟨.prov, a, false⟩
+def node (a : Addr) : TextAddr := ⟨.node, a, false⟩
+
+/-- Proof verification on; `bob`'s account key has index 4; `carol` approves swaps. -/
+def g0 : Genesis :=
+  { time := 1700000000000000000,
+    params := { (default : Params) with
+      maxSubGB := 10, minSubGB := 1, maxSubHr := 10, minSubHr := 1, sessDelay := 1000, subDelay := 1000,
+      activeDur := 1000000, «proof» := true, swapOn := true, swapDenom := "udvpn", approveBy := carol },
+    balances := [(alice, "udvpn", 1000), (bob, "udvpn", 500), (carol, "udvpn", 500)],
+    keyed := [(bob, 4)] }
+
+/-- alice registers as provider and creates plan 1; nodes A and B register, A goes active;
+bob buys 1 GB on node A (subscription 1) and starts session 1. -/
+def msgs : List Msg :=
+  [ .provRegister (acc alice) [65] [] [] [] true,
+    .nodeRegister (acc nodeA) (some [⟨"udvpn", 5⟩]) (some [⟨"udvpn", 3⟩]) [104] true,
+    .nodeRegister (acc nodeB) (some [⟨"udvpn", 5⟩]) (some [⟨"udvpn", 3⟩]) [104] true,
+    .planCreate (prov alice) 1000 1 (some [⟨"udvpn", 10⟩]),
+    .nodeStatus (node nodeA) 1,
+    .nodeSubscribe (acc bob) (node nodeA) 1 0 "udvpn",
+    .sessStart (acc bob) 1 (node nodeA) ]
+
+def s1 : State := deliverAll g0.state msgs
+
+/-- The well-formedness hypothesis of the frame theorems holds in this (reachable) state. -/
+theorem s1_keys : KeysOK s1 := keysOK_deliverAll msgs _ (keysOK_genesis g0)
+
+-- every message of the history was accepted: plan 1, subscription 1 and session 1 exist
+example : (getPlan s1 1).map (·.prov) = some alice ∧ (s1.subs.get 1).map (·.addr) = some bob ∧
+    (s1.sessions.get 1).map (fun x => (x.addr, x.node)) = some (bob, nodeA) := by decide +kernel
+-- node status: the node itself may; another address has no record it could change
+example : (deliver s1 (.nodeStatus (node nodeA) 3)).2 = .accept := by decide +kernel
+example : (deliver s1 (.nodeStatus (node carol) 3)).2 = .reject "node not found" := by decide +kernel
+-- role confusion: node A's bytes under the provider prefix
+example : (deliver s1 (.nodeStatus (prov nodeA) 3)).2 = .reject "validate: invalid address" := by decide +kernel
+-- plan link and plan status: only the plan's provider
+example : owner s1 (.planLink (prov bob) 1 (node nodeA)) = some alice := by decide +kernel
+example : (deliver s1 (.planLink (prov alice) 1 (node nodeA))).2 = .accept := by decide +kernel
+example : (deliver s1 (.planLink (prov bob) 1 (node nodeA))).2 = .reject "unauthorized" := by decide +kernel
+example : (deliver s1 (.planStatus (prov bob) 1 1)).2 = .reject "unauthorized" := by decide +kernel
+-- session end / cancel: only bob
+example : (deliver s1 (.sessEnd (acc carol) 1 0)).2 = .reject "unauthorized" := by decide +kernel
+example : (deliver s1 (.sessEnd (acc bob) 1 0)).2 = .accept := by decide +kernel
+example : (deliver s1 (.subCancel (acc carol) 1)).2 = .reject "unauthorized" := by decide +kernel
+example : (deliver s1 (.subCancel (acc bob) 1)).2 = .accept := by decide +kernel
+-- a session on bob's node subscription: only bob
+example : (deliver s1 (.sessStart (acc carol) 1 (node nodeA))).2 = .reject "unauthorized" := by decide +kernel
+-- usage report: only node A, only with bob's key over the reported figures
+example : (deliver s1 (.sessUpdate (node nodeA) 1 10 20 5 (.good 4))).2 = .accept := by decide +kernel
+example : (deliver s1 (.sessUpdate (node nodeA) 1 10 20 5 (.badmsg 4))).2 = .reject "invalid signature" := by decide +kernel
+example : (deliver s1 (.sessUpdate (node nodeA) 1 10 20 5 (.good 5))).2 = .reject "invalid signature" := by decide +kernel
+example : (deliver s1 (.sessUpdate (node nodeA) 1 10 20 5 .none)).2 = .reject "invalid signature" := by decide +kernel
+example : (deliver s1 (.sessUpdate (node nodeB) 1 10 20 5 (.good 4))).2 = .reject "unauthorized" := by decide +kernel
+-- swap: only carol
+example : (deliver s1 (.swap (acc bob) (List.replicate 32 0) (acc bob) 1000)).2 = .reject "unauthorized" := by decide +kernel
+example : (deliver s1 (.swap (acc carol) (List.replicate 32 0) (acc bob) 1000)).2 = .accept := by decide +kernel
+-- the theorems applied: bob's rejected link changes nothing
+example : (deliver s1 (.planLink (prov bob) 1 (node nodeA))).1 = { s1 with events := [] } :=
+  (non_owner_rejected s1 _ alice (by decide +kernel) (by decide)).2
+
+end Examples
+
 end Hub.Props.C07
